@@ -13,8 +13,11 @@
     (Partition, Routing, LeafOrder; drift: exact equality with the transcription's Build);
     (b) for seeded byte strings (from every spec with random free bits, near misses, prefixes prepended,
     truncations, random strings of length 0..maxlen+2; ARM/Thumb x both fetch orders) the driver logs which
-    specs' ispec.decode accept at every prefix level next to what disassemble() did; TLC decides
-    "chosen = most constrained accepted" and equality of the outcome with the reference chain.
+    specs pass the fixed-bit test at every prefix level next to which specs disassemble() actually tried, in
+    which order, and which one ended the level; TLC decides "tried = the matching specs, most constrained first,
+    up to the winner; no winner only after all of them" (the full scan runs exactly the same setup functions
+    in the same order, so its outcome is the same).  Drift: winner = most constrained spec accepting with a
+    FRESH partial instruction, outcome equal to a fresh re-decode (side effects of rejected hooks are C05/C11).
 """
 import json
 import multiprocessing as mp
@@ -149,7 +152,7 @@ def real_isas(ctx, per_spec, nrandom, nparts_big):
                 ntree += 1
                 ctx.case(key=("T", "tree", cfgname))
             elif e["k"] == "dis":
-                multi = len(e["levels"]) > 1 or any(len(lv["acc"]) > 1 for lv in e["levels"])
+                multi = len(e["levels"]) > 1 or any(len(lv["cand"]) > 1 for lv in e["levels"])
                 ctx.case(key=("T", cfgname, e["w"]) if multi else None)
         for f in v["verdict"]:
             e = t["ev"][f["line"] - 1]
@@ -158,7 +161,7 @@ def real_isas(ctx, per_spec, nrandom, nparts_big):
                     json.dumps(dict((k, e[k]) for k in e if k in ("levels", "out", "what")))[:600]))
             if e["k"] == "dis":
                 for lv in e["levels"]:
-                    for sid in lv["acc"][:3] + [lv["chosen"]]:
+                    for sid in lv["cand"][:3] + [lv["chosen"]]:
                         if sid and t.get("formats"):
                             what += " | spec %d = %r" % (sid, t["formats"][sid - 1])
             ctx.fail(key, what, {"source": "T", "trace": dict((k, v2) for k, v2 in t.items() if k != "ev"),
@@ -173,7 +176,7 @@ def real_isas(ctx, per_spec, nrandom, nparts_big):
         for e in t["ev"]:
             if e["k"] == "dis" and len(e["levels"]) > 1 and e["out"] == "ins":
                 ctx.sample({"source": "T", "config": t["t"], "input": e["w"],
-                            "levels": [{"accepting_specs": lv["acc"], "chosen": lv["chosen"]} for lv in e["levels"]]}, cap=5)
+                            "levels": [{"matching_specs": lv["cand"], "tried": lv["tried"], "chosen": lv["chosen"]} for lv in e["levels"]]}, cap=5)
                 break
 
 
@@ -222,9 +225,12 @@ def run(ctx):
     ctx.rule = ("G: one case = one disassemble(bytes) on a real disassembler built from a TLC-generated spec table, winner compared "
                 "with TLC's scan; T: one case = one real tree checked structurally or one disassemble(bytes) call of a shipped cpu "
                 "module validated by DecTreeTrace.tla; non-trivial = the table's root is split (G) / the input has a prefix level or "
-                "more than one accepting spec (T) / a tree (T)")
-    ctx.assume("'most-constrained-first' leaves the order of equally constrained specs open: the property clause is 'the chosen spec "
-               "accepts and no accepting spec has a heavier mask'; 'first in the stable order' is checked as drift")
+                "more than one spec whose fixed bits match (T) / a tree (T)")
+    ctx.assume("'most-constrained-first' leaves the order of equally constrained specs open: the property clauses compare mask "
+               "weights only; 'exactly the stable order' is checked as drift")
+    ctx.assume("a setup function that rejects may leave changes in the shared partial instruction (x64: a rejected 0f d6 spec "
+               "rewrites misc['opdsz']); the reference scan of the statement shares that instruction too, so the property clause "
+               "is about WHICH specs are tried in WHICH order; 'the winner is the one a fresh instruction would give' is drift")
     ctx.assume("the reference list of a mode is the spec module's ISPECS list as found after import (setup sorts it in place, "
                "stably); TLC recomputes the order from the mask weights")
     ctx.assume("fetch endianness is varied only where the cpu module exposes it (armv7, armv8: internals['ibigend']); other modules "
